@@ -84,7 +84,9 @@ namespace Givaro {
     inline typename MOD::Element&
     MOD::init (Element& x, const Source& y) const
     {
-        reduce(x, Caster<Element>((y < 0)? -y : y));
+        // negate integral sources in 64 bits: -y overflows in int for INT32_MIN
+        typedef typename std::conditional<std::is_integral<Source>::value && std::is_signed<Source>::value, int64_t, Source>::type Wide;
+        reduce(x, Caster<Element>((y < 0)? -Wide(y) : Wide(y)));
         if (y < 0) negin(x);
         return x;
     }
